@@ -13,15 +13,22 @@ EXTENDS Words
 \* character on both sides
 HyphenPts(s, wd) == {q + 1 : q \in {x \in (wd.a + 1)..(wd.e - 2) : s[x] = HY /\ IsAlnum(s[x - 1]) /\ IsAlnum(s[x + 1])}}
 
-\* the custom splitter of the harness: a split point after every `k`-th character of the word,
-\* but never directly after a space (Unicode-separator words may contain spaces)
-EveryPts(s, wd, k) == {q \in (wd.a + 1)..(wd.e - 1) : (q - wd.a) % k = 0 /\ s[q - 1] # SP}
+\* the custom splitters of the harness (user code as far as the crate is concerned):
+\*  every<k>: a split point after every `k`-th character of the word, but never directly after a space (Unicode-separator
+\*            words may contain spaces) and never *inside* an escape sequence (directly before its ESC is allowed);
+\*  half:     the documentation's example `|w| vec![w.len() / 2]`, in characters: for a one-character word this is
+\*            the split point 0 (an empty first piece), which the documented range 0..word.len() allows
+OutsideSeq(s, wd, q) == Pre(SubSeq(s, wd.a, wd.e - 1))[q - wd.a + 1] = "T"
+EveryPts(s, wd, k) == {q \in (wd.a + 1)..(wd.e - 1) : (q - wd.a) % k = 0 /\ s[q - 1] # SP /\ OutsideSeq(s, wd, q)}
+HalfPts(s, wd) == LET n == wd.e - wd.a q == wd.a + (n \div 2)
+                  IN IF n >= 1 /\ OutsideSeq(s, wd, q) /\ (q = wd.a \/ s[q - 1] # SP) THEN {q} ELSE {}
 
-\* splitter: "none" | "hyphen" | "every2" | "every3"
+\* splitter: "none" | "hyphen" | "every2" | "every3" | "half"
 SplitPts(s, wd, splitter) ==
   CASE splitter = "hyphen" -> HyphenPts(s, wd)
     [] splitter = "every2" -> EveryPts(s, wd, 2)
     [] splitter = "every3" -> EveryPts(s, wd, 3)
+    [] splitter = "half" -> HalfPts(s, wd)
     [] OTHER -> {}
 
 \* split_words for one word and a given set of split points (word_splitters.rs:176-205)
@@ -33,7 +40,7 @@ SplitWordAt(s, wd, ptset) ==
                   IN [a |-> a, e |-> e,
                       b |-> IF k <= n THEN e ELSE wd.b,
                       pen |-> IF k <= n THEN (IF HasDev("split_penalty_always") THEN 1
-                                              ELSE IF s[e - 1] = HY THEN 0 ELSE 1)
+                                              ELSE IF e > wd.a /\ s[e - 1] = HY THEN 0 ELSE 1)    \* !word[..idx].ends_with('-')
                               ELSE (IF HasDev("split_drops_input_penalty") THEN 0 ELSE wd.pen),
                       w |-> DW(SubSeq(s, a, e - 1))]
   IN [k \in 1..(n + 1) |-> piece(k)]
@@ -78,7 +85,7 @@ PiecesCover(wd, ps) ==
 SplitOk(s, wd, ptset, ps) ==
   /\ PiecesCover(wd, ps)
   /\ {ps[k].a : k \in 2..Len(ps)} = ptset /\ Len(ps) = Cardinality(ptset) + 1
-  /\ \A k \in 1..(Len(ps) - 1) : ps[k].pen = (IF s[ps[k].e - 1] = HY THEN 0 ELSE 1)
+  /\ \A k \in 1..(Len(ps) - 1) : ps[k].pen = (IF ps[k].e > wd.a /\ s[ps[k].e - 1] = HY THEN 0 ELSE 1)
   /\ \A k \in 1..Len(ps) : ps[k].w = DW(SubSeq(s, ps[k].a, ps[k].e - 1))
 
 \* number of visible non-zero-width characters of s[a..e) (scanner started at the word start)
